@@ -256,7 +256,7 @@ class Recorder {
 // Classify the exception in flight (call inside a catch (...) block) and append
 // the terminal Throw event.  lines/size describe the input (for "located").
 inline void RecordThrow(Recorder &r, long long lines, long long size) {
-  std::string kind = "other", msg;
+  std::string kind = "other", msg, type;
   long long line = -1, col = -1, off = -1;
   try {
     throw;
@@ -271,7 +271,7 @@ inline void RecordThrow(Recorder &r, long long lines, long long size) {
   } catch (const std::bad_alloc &e) {
     kind = "bad_alloc"; msg = e.what();
   } catch (const std::exception &e) {
-    kind = std::string("other:") + typeid(e).name(); msg = e.what();
+    kind = "std_exception"; type = typeid(e).name(); msg = e.what();   // e.g. std::length_error out of a container
   } catch (...) {
     kind = "other:unknown";
   }
@@ -281,7 +281,7 @@ inline void RecordThrow(Recorder &r, long long lines, long long size) {
   r.evs += "{\"e\":\"Throw\",\"kind\":" + vj::esc(kind) + ",\"line\":" + std::to_string(line) +
            ",\"col\":" + std::to_string(col) + ",\"off\":" + std::to_string(off) +
            ",\"lines\":" + std::to_string(lines) + ",\"size\":" + std::to_string(size) +
-           ",\"msg\":" + vj::esc(msg) + "}";
+           ",\"type\":" + vj::esc(type) + ",\"msg\":" + vj::esc(msg) + "}";
 }
 
 }  // namespace vrec
